@@ -37,7 +37,7 @@ func (t inproc) RoundTrip(req *http.Request) (*http.Response, error) {
 		op.Body, _ = io.ReadAll(req.Body)
 	}
 	op.Checked = true // judged by the caller of the real client, not by the per-operation oracle
-	Serve(w.s, w.reps[op.Replica].inst, w.prefix, op, req.Context())
+	Serve(w.s, w.repFor(op).inst, w.prefix, op, req.Context())
 	if op.Panic != "" {
 		w.s.Violate("panic", panicSite(op.Panic), "%s (real client audit): handler panicked: %s", op.Kind, op.Panic)
 	}
@@ -74,6 +74,8 @@ func (w *World) withHonestDriver(f func()) bool {
 func finalClientAudit(w *World, final *servedSTH) {
 	s := w.s
 	hc := &http.Client{Transport: inproc{w}}
+	// a log key on a curve RFC 6962 does not provide for: the library's client takes it only when told to (process-global switch; one run at a time per process)
+	ct.AllowVerificationWithNonCompliantKeys = w.prof.LogKeyKind == "p384"
 	lc, err := client.New("https://log.test"+w.prefix, hc, jsonclient.Options{PublicKeyDER: w.logKey.SPKI})
 	if err != nil {
 		s.Violate("harness", "client", "client.New: %v", err)
